@@ -481,6 +481,88 @@ theorem prelude_ok (net : List (Link α)) (t : Tpc α) (route : List Nat) (links
     cases t; simp only at hG; subst hG
     simp [initNet, pure]
 
+/-- the real (non-dummy) link points of a route starting at base `b` -/
+def lpsBody (b : α) : List (Link α) → List (LinkPt α)
+  | [] => []
+  | l :: ls => lpOf b l :: lpsBody (l.length + b) ls
+
+theorem routeLPs_ne_nil (last : LinkPt α) (links : List (Link α)) : routeLPs last links ≠ [] := by
+  cases links <;> simp [routeLPs]
+
+theorem routeLPs_dropLast : ∀ (links : List (Link α)) (last : LinkPt α),
+    (routeLPs last links).dropLast = lpsBody last.off links
+  | [], last => rfl
+  | l :: ls, last => by
+    rw [routeLPs, List.dropLast_cons_of_ne_nil (routeLPs_ne_nil _ _), routeLPs_dropLast ls, lpsBody]
+
+theorem lpsBody_linkIdx : ∀ (links : List (Link α)) (b : α),
+    (lpsBody b links).map (·.linkIdx) = links.map (·.idxCurr)
+  | [], _ => rfl
+  | l :: ls, b => by simp [lpsBody, lpsBody_linkIdx ls]
+
+theorem lpsBody_gradeCount : ∀ (links : List (Link α)) (b : α),
+    (lpsBody b links).map (·.gradeCount) = links.map (fun l => max l.elevs.length 2 - 1)
+  | [], _ => rfl
+  | l :: ls, b => by simp [lpsBody, lpsBody_gradeCount ls, lpOf]
+
+theorem lpsBody_curveCount : ∀ (links : List (Link α)) (b : α),
+    (lpsBody b links).map (·.curveCount) = links.map (fun l => max l.headings.length 2 - 1)
+  | [], _ => rfl
+  | l :: ls, b => by simp [lpsBody, lpsBody_curveCount ls, lpOf]
+
+theorem lpsBody_catCount : ∀ (links : List (Link α)) (b : α),
+    (lpsBody b links).map (·.catCount) = links.map (fun l => l.cats.length)
+  | [], _ => rfl
+  | l :: ls, b => by simp [lpsBody, lpsBody_catCount ls, lpOf]
+
+theorem lpsBody_length : ∀ (links : List (Link α)) (b : α), (lpsBody b links).length = links.length
+  | [], _ => rfl
+  | l :: ls, b => by simp [lpsBody, lpsBody_length ls]
+
+theorem foldl_count {β : Type} (f : β → Nat) (l : List β) (a : Nat) :
+    l.foldl (fun a p => a + f p) a = a + (l.map f).sum := by
+  induction l generalizing a with
+  | nil => simp
+  | cons x xs ih => simp [ih, Nat.add_assoc]
+
+theorem segGrades_length (b n e0 : α) : ∀ es : List (Elev α), (segGrades b n e0 es).length = es.length - 1
+  | [] => rfl
+  | [_] => rfl
+  | p :: c :: t => by simp [segGrades, segGrades_length b n e0 (c :: t)]
+
+theorem segCurves_length (g : GeoConsts α) (par : TrainPar α) (b : α) :
+    ∀ (hs : List (Heading α)) (n : α), (segCurves g par b n hs).length = hs.length - 1
+  | [], _ => rfl
+  | [_], _ => rfl
+  | p :: c :: t, n => by simp [segCurves, segCurves_length g par b (c :: t)]
+
+theorem routeGrades_length : ∀ (links : List (Link α)) (b c0 n : α),
+    (routeGrades b c0 n links).length = (links.map (fun l => l.elevs.length - 1)).sum + 1
+  | [], _, _, _ => rfl
+  | l :: ls, b, c0, n => by
+    simp [routeGrades, segGrades_length, routeGrades_length ls, Nat.add_assoc]
+
+theorem routeCurves_length (g : GeoConsts α) (par : TrainPar α) : ∀ (links : List (Link α)) (b c0 n : α),
+    (routeCurves g par b c0 n links).length =
+      (links.map (fun l => if l.headings.isEmpty then 1 else l.headings.length - 1)).sum + 1
+  | [], _, _, _ => rfl
+  | l :: ls, b, c0, n => by
+    simp only [routeCurves, List.length_append, routeCurves_length g par ls, List.map_cons, List.sum_cons]
+    split_ifs <;> simp [segCurves_length, Nat.add_assoc]
+
+theorem routeCats_length : ∀ (links : List (Link α)) (b : α),
+    (routeCats b links).length = (links.map (fun l => l.cats.length)).sum
+  | [], _ => rfl
+  | l :: ls, b => by simp [routeCats, routeCats_length ls]
+
+/-- `routeCats` as a plain shifted concatenation over the cumulative offsets -/
+theorem routeCats_eq_flatMap : ∀ (links : List (Link α)) (b : α),
+    routeCats b links =
+      ((prefixOffs b links).zip links).flatMap (fun ol => ol.2.cats.map (shiftCat ol.1))
+  | [], _ => by simp [routeCats, prefixOffs]
+  | l :: ls, b => by simp [routeCats, prefixOffs, routeCats_eq_flatMap ls]
+
+
 end defs
 
 /-! ## Over an ordered field -/
@@ -607,6 +689,94 @@ theorem geo_fold (g : GeoConsts α) (net : List (Link α)) :
     rw [foldR_cons, extendGeometry_ok g net t i l hl (hok l (by simp)) G C b cg ng cc nc hG hC, bind_ok]
     rw [ih r _ _ _ (b + l.length) 0 _ 0 _ hres' (fun x hx => hok x (by simp [hx])) rfl rfl]
     simp [routeGrades, routeCurves, routeCats]
+
+theorem LinkOK.elevs_ne_nil {l : Link α} (h : LinkOK l) : l.elevs ≠ [] := by
+  intro h0; have := h.elev_two; rw [h0] at this; simp at this
+
+/-- **closed form of one `extend` call** on a resolved route of validated links, from any state whose
+    three profiles end in a terminal point -/
+theorem extend_ok_iff (toU32 : α → Nat) (g : GeoConsts α) (net : List (Link α))
+    (route : List Nat) (links : List (Link α)) (t t' : Tpc α)
+    (L : List (LinkPt α)) (last : LinkPt α) (G C : List (PRC α)) (b cg ng cc nc : α)
+    (hres : Resolves net route links) (hok : ∀ l ∈ links, LinkOK l)
+    (hL : t.linkPoints = L ++ [last]) (hG : t.grades = G ++ [⟨b, cg, ng⟩])
+    (hC : t.curves = C ++ [⟨b, cc, nc⟩]) (hS : t.speedPoints ≠ []) :
+    extend toU32 g net t route = .ok t' ↔
+      (∀ i ∈ route, i ≠ 0) ∧ contig (L.getLast?.map (·.linkIdx)) links = true ∧
+      ∃ sp, routeSpeeds toU32 t.par t.speedPoints last.off links = .ok sp ∧
+        t' = { linkPoints := L ++ routeLPs last links,
+               grades := G ++ routeGrades b cg (initNet G ng links) links,
+               curves := C ++ routeCurves g t.par b cc nc links,
+               speedPoints := sp,
+               cats := t.cats ++ routeCats b links,
+               par := t.par, isFinished := t.isFinished } := by
+  have e1 : ensure (!t.linkPoints.isEmpty) "link-points-empty" = .ok () := by rw [hL]; simp [ensure]
+  have e2 : ensure (!t.grades.isEmpty) "grades-empty" = .ok () := by rw [hG]; simp [ensure]
+  have e3 : ensure (!t.curves.isEmpty) "curves-empty" = .ok () := by rw [hC]; simp [ensure]
+  have e4 : ensure (!t.speedPoints.isEmpty) "speed-points-empty" = .ok () := by
+    cases hsp : t.speedPoints with
+    | nil => exact absurd hsp hS
+    | cons _ _ => simp [ensure]
+  rw [extend_eq, e1, e2, e3, e4]
+  simp only [bind_ok]
+  unfold extendCore
+  rw [prelude_ok net t route links G b cg ng hres (fun l hl => (hok l hl).elevs_ne_nil) hG, bind_ok,
+    bind_eq_ok]
+  have hgeo : ∀ sp : List (Pt α), foldR (extendGeometry g net)
+      { linkPoints := L ++ routeLPs last links, grades := G ++ [⟨b, cg, initNet G ng links⟩],
+        curves := t.curves, speedPoints := sp, cats := t.cats, par := t.par,
+        isFinished := t.isFinished } route = .ok
+      { linkPoints := L ++ routeLPs last links,
+        grades := G ++ routeGrades b cg (initNet G ng links) links,
+        curves := C ++ routeCurves g t.par b cc nc links,
+        speedPoints := sp, cats := t.cats ++ routeCats b links,
+        par := t.par, isFinished := t.isFinished } := fun sp =>
+    geo_fold g net links route _ G C b cg (initNet G ng links) cc nc hres hok rfl hC
+  have hlp := fun t1 => lp_fold_ok_iff toU32 net links route
+    { t with grades := G ++ [⟨b, cg, initNet G ng links⟩] } t1 L last hres hL
+  dsimp only at hlp
+  constructor
+  · rintro ⟨t1, h1, h2⟩
+    obtain ⟨h0, hcon, sp, hsp, rfl⟩ := (hlp t1).mp h1
+    refine ⟨h0, hcon, sp, hsp, ?_⟩
+    rw [hgeo sp] at h2
+    exact (Res.ok.inj h2).symm
+  · rintro ⟨h0, hcon, sp, hsp, rfl⟩
+    exact ⟨_, (hlp _).mpr ⟨h0, hcon, sp, hsp, rfl⟩, hgeo sp⟩
+
+theorem routeLPs_off : ∀ (links : List (Link α)) (last : LinkPt α),
+    (routeLPs last links).map (·.off) = prefixOffs last.off links
+  | [], _ => rfl
+  | l :: ls, last => by
+    simp only [routeLPs, List.map_cons, prefixOffs, lpOf_off, routeLPs_off ls, add_comm l.length]
+
+theorem lpsBody_off : ∀ (links : List (Link α)) (b : α),
+    (lpsBody b links).map (·.off) = (prefixOffs b links).dropLast
+  | [], _ => rfl
+  | l :: ls, b => by
+    have : prefixOffs (b + l.length) ls ≠ [] := by cases ls <;> simp [prefixOffs]
+    simp only [lpsBody, List.map_cons, lpOf_off, prefixOffs, List.dropLast_cons_of_ne_nil this,
+      lpsBody_off ls, add_comm l.length]
+
+theorem prefixOffs_getLast : ∀ (links : List (Link α)) (b : α),
+    (prefixOffs b links).getLast? = some (b + routeLen links)
+  | [], b => by simp [prefixOffs, routeLen]
+  | l :: ls, b => by
+    have : prefixOffs (b + l.length) ls ≠ [] := by cases ls <;> simp [prefixOffs]
+    obtain ⟨x, xs, hx⟩ := List.exists_cons_of_ne_nil this
+    rw [prefixOffs, hx, List.getLast?_cons_cons, ← hx, prefixOffs_getLast ls, routeLen, add_assoc]
+
+/-- the trailing dummy link point of a non-empty route -/
+theorem routeLPs_getLast : ∀ (links : List (Link α)) (last : LinkPt α), links ≠ [] →
+    (routeLPs last links).getLast? = some ⟨last.off + routeLen links, 0, 0, 0, 0⟩
+  | [], _, h => absurd rfl h
+  | [l], last, _ => by simp [routeLPs, routeLen, add_comm]
+  | l :: l' :: ls, last, _ => by
+    have := routeLPs_getLast (l' :: ls) ⟨l.length + last.off, 0, 0, 0, 0⟩ (by simp)
+    have hne := routeLPs_ne_nil (⟨l.length + last.off, 0, 0, 0, 0⟩ : LinkPt α) (l' :: ls)
+    obtain ⟨x, xs, hx⟩ := List.exists_cons_of_ne_nil hne
+    rw [routeLPs, hx, List.getLast?_cons_cons, ← hx, this]
+    simp only [routeLen]; congr 2; ring
 
 end field
 
